@@ -27,6 +27,32 @@ class Table:
         self.db.sched.point('len')
         return len(self.rows)
 
+    def _select(self, order_by=None, **flt):
+        rows = [dict(r) for r in self.rows if all(r.get(k) == v for k, v in flt.items())]
+        for key in reversed(order_by if isinstance(order_by, (list, tuple)) else ([order_by] if order_by else [])):
+            rows.sort(key=lambda r: r.get(key.lstrip('-')), reverse=key.startswith('-'))
+        return rows
+
+    def find(self, *a, _limit=None, _offset=0, order_by=None, **flt):
+        self.db.sched.point('find')
+        rows = self._select(order_by, **flt)[_offset:]
+        return iter(rows[:_limit] if _limit else rows)
+
+    def find_one(self, *a, order_by=None, **flt):
+        self.db.sched.point('find_one')
+        rows = self._select(order_by, **flt)
+        return rows[0] if rows else None
+
+    def all(self):
+        return self.find()
+
+    def __iter__(self):
+        return self.find()
+
+    def count(self, **flt):
+        self.db.sched.point('count')
+        return len(self._select(None, **flt))
+
     def insert(self, row):
         self.db.sched.point('insert')
         row = dict(row)
@@ -125,7 +151,7 @@ def run(ctx):
     hook.install()
     ctx.functions_encoded = FUNCS
     ns = [2, 3]
-    ctx.bounds = dict(sessions=ns, scheduling_points='the row-count read and the row insert of every session (and the 3 other table '
+    ctx.bounds = dict(sessions=ns, scheduling_points='every read (len, count, find, find_one) and every insert on table session (the 3 other table '
                       'look-ups are not operations on shared state)', interleavings='all')
     ctx.stubs = ['dataset.connect -> database model: table = list of rows, unique auto-increment primary key, len() and insert() '
                  'are scheduling points', 'greenlets carry the real Session.__init__ across the scheduling points']
@@ -174,6 +200,14 @@ def my_ins(self, row, *a, **k):
     if self.name == 'session': sync('insert')
     return _ins(self, row, *a, **k)
 T.__len__, T.insert = my_len, my_ins
+def wrap(name):
+    orig = getattr(T, name)
+    def w(self, *a, **k):
+        if self.name == 'session': sync(name)
+        return orig(self, *a, **k)
+    setattr(T, name, w)
+for _n in ('find', 'find_one', 'count'):
+    wrap(_n)
 from androguard import session as S
 try:
     s = S.Session(db_url='sqlite:///' + sys.argv[3])
